@@ -15,7 +15,7 @@ class TPMS_PARAMS:
     _encrypted = False
 
     @classmethod
-    @lru_cache(maxsize=1)
+    @lru_cache(maxsize=None)
     def encrypted(cls):
         """Returns a modified type where first parameter type is TPM2B_ENCRYPTED_PARAM. Result is cached to enable equality checks on it."""
         new_type = type(cls.__name__, (), {})
